@@ -192,6 +192,7 @@ inductive ElemKind where
   | closurePoint  -- a closure point
   | unsupported   -- a constraint outside the class of the domain (not a bounded difference, …)
   | inequality    -- a non-trivial inequality (grids accept equalities only)
+  | dimIncompatible -- an element whose space dimension exceeds the receiver's (the system is then dimension-incompatible)
 deriving Repr, DecidableEq
 
 inductive DomKind where
@@ -205,6 +206,7 @@ deriving Repr, DecidableEq
 /-- Is this element ill-formed for this operation of this domain (documented `std::invalid_argument`)? -/
 def elemBad (d : DomKind) (op : SysOp) (k : ElemKind) : Bool :=
   match op, k with
+  | _, .dimIncompatible => true                       -- every overload of every domain, `refine_with_*` included
   | .refine, _ => false                               -- refine_with_* ignores what it cannot use
   | _, .ok => false
   | .addConstraints, .strict =>
@@ -227,9 +229,20 @@ def stepSystem {σ : Type} (applyAll : List ElemKind → σ → σ) (d : DomKind
   | .error e => (.error e, r)
   | .ok () => (.ok (), applyAll es r)
 
+/-- The repaired overloads validate the whole system first and then apply the elements one by one. -/
+def applyEach {σ : Type} (apply1 : ElemKind → σ → σ) (es : List ElemKind) (r : σ) : σ := es.foldl (fun acc e => apply1 e acc) r
+
+/-- Historical witness — the overloads of BD shapes, octagons, boxes and grids (and still those of the
+products) as they were found: each element is checked when it is met, after the preceding ones have
+been applied. -/
+def stepSystemAsWritten {σ : Type} (apply1 : ElemKind → σ → σ) (d : DomKind) (op : SysOp) :
+    List ElemKind → σ → Except ErrClass Unit × σ
+  | [], r => (.ok (), r)
+  | e :: es, r => if elemBad d op e then (.error .invalidArgument, r) else stepSystemAsWritten apply1 d op es (apply1 e r)
+
 def ElemKind.ofString : String → ElemKind
   | "strict" => .strict | "proper" => .proper | "closure_point" => .closurePoint
-  | "unsupported" => .unsupported | "inequality" => .inequality | _ => .ok
+  | "unsupported" => .unsupported | "inequality" => .inequality | "dim" => .dimIncompatible | _ => .ok
 
 def DomKind.ofString? : String → Option DomKind
   | "polyC" => some .polyC | "polyNNC" => some .polyNNC | "bds" => some .bds | "oct" => some .oct | "box" => some .box
